@@ -64,6 +64,11 @@ class Runtime:
         return int(v)
 
     @staticmethod
+    def truth(v):
+        """C truth value of an expression as 1 / 0 (forks on a symbolic condition)"""
+        return 1.0 if v else 0.0
+
+    @staticmethod
     def todouble(v):
         if isinstance(v, I):
             return R(z3.ToReal(v.t))
